@@ -17,7 +17,9 @@ func goRegexToSMT(pattern string) string {
 		panic("strMatchesGoRe: " + err.Error())
 	}
 	re = re.Simplify()
-	return goReSearch(re)
+	out := goReSearch(re)
+	rememberGoRe(pattern, out)
+	return out
 }
 
 func goReSearch(re *syntax.Regexp) string {
@@ -136,4 +138,14 @@ func goReTerm(re *syntax.Regexp) string {
 		return "(re.union " + strings.Join(parts, " ") + ")"
 	}
 	panic("strMatchesGoRe: unsupported construct " + re.Op.String() + " in " + re.String())
+}
+
+// tryGoRegexToSMT: the translation, or false when the pattern uses an unsupported construct.
+func tryGoRegexToSMT(pattern string) (re string, ok bool) {
+	defer func() {
+		if recover() != nil {
+			ok = false
+		}
+	}()
+	return goRegexToSMT(pattern), true
 }
